@@ -2,11 +2,11 @@
 package checks
 
 import (
-	"os"
-	"strings"
 	"context"
 	"errors"
 	"fmt"
+	"os"
+	"strings"
 
 	"verif/harness/check"
 	"verif/harness/core"
